@@ -150,6 +150,10 @@ class _Runner:
         with open(gfa, "w") as f:
             f.write("\n".join(lines) + "\n")
         pf = os.path.join(self.d, "paths.txt")
+        # the same path may be listed on several lines: one output record per LINE, in order (added after seeded change C14-3)
+        exp_all = list(exp_all)
+        for _ in range(min(3, len(exp_all))):
+            exp_all.insert(ctx.rng.randint(0, len(exp_all)), ctx.rng.choice(exp_all))
         with open(pf, "w") as f:
             f.write("".join(p + "\n" for p, _ in exp_all))
         walks = [x for x in exp_all if x[1] and x[0].count(">") + x[0].count("<") > 1]
@@ -306,6 +310,17 @@ def _run(ctx):
         R.graph(list(zip(IDS[:n], pick_seqs(rng, n))), links, L, api_len=2, cli=(i % 4 == 0))
         if ctx.out_of_time(budget):
             break
+
+    # 4b. segment names with punctuation (valid GFA names: '.', '-', ':', '#', '_', digits only): the path tokeniser must keep them whole
+    # (added after seeded change C14-4)
+    PUNCT = ["s1.5", "u-7", "chr1:100-200", "n#1", "x_y", "17"]
+    n_p = 12 if quick else 120
+    ctx.bound("%d random graphs on 3-4 nodes whose segment names contain punctuation %s" % (n_p, PUNCT))
+    for i in range(n_p):
+        n = rng.choice([3, 4])
+        ids = rng.sample(PUNCT, n)
+        sub = [x for x in gl.all_side_links(ids) if rng.random() < 0.4]
+        R.graph(list(zip(ids, pick_seqs(rng, n))), decls(sub, i % 3), L, api_len=2, cli=(i % 3 == 0))
 
     # 5. the real command line (stdout), a handful of invocations
     ctx.bound("%d real `python -m gaftools find_path` command lines (stdout, with and without -f, single path and file of paths)" % (4 if quick else 12))
